@@ -182,6 +182,18 @@ of_status_t	of_ldpc_staircase_set_fec_parameters (of_ldpc_staircase_cb_t*	ofcb,
 			params->N1))
 		goto error;
 	}
+	if (params->nb_source_symbols == 0 || params->nb_repair_symbols == 0 || params->encoding_symbol_length == 0)
+	{
+		OF_PRINT_ERROR(("of_ldpc_staircase_set_fec_parameters: ERROR, nb_source_symbols, nb_repair_symbols and encoding_symbol_length must be at least 1\n"))
+		goto error;
+	}
+	if (params->prng_seed < 1 || params->prng_seed > 0x7FFFFFFE)
+	{
+		/* the Park-Miller PRNG of RFC 5170 only accepts seeds in 1..2^31-2: with any other value it keeps
+		 * its previous state, so the code would depend on the sessions created before (or never be built) */
+		OF_PRINT_ERROR(("of_ldpc_staircase_set_fec_parameters: ERROR, invalid PRNG seed (%d), must be in 1..2147483646\n", params->prng_seed))
+		goto error;
+	}
 	if ((ofcb->nb_source_symbols = params->nb_source_symbols) > ofcb->max_nb_source_symbols)
 	{
 		OF_PRINT_ERROR(("of_ldpc_staircase_set_fec_parameters: ERROR, invalid nb_source_symbols parameter (got %d, maximum is %d)\n",
